@@ -1,7 +1,7 @@
 """C17 — partitions round-trip key by key and merge as an overlay of their parents (engine `calltree`)."""
 import shutil
 
-from sim import core, values, world
+from sim import core, simfs, values, world
 
 PROP = "C17"
 LEVEL = "exploration"
@@ -16,7 +16,7 @@ ASSUMPTIONS = ["the merge parent is obtained the documented way: by calling the 
                "values are compared by type-aware deep equality"]
 COMPONENTS = {"real": ["partition codecs, PicklePartition, InMemoryPartition, OnDiskPartition, storage backend, memory cache", "tmpfs", "fork lifetimes"],
               "stub": ["scripted partition contents (through the builtins side channel)", "uuid4, clock"]}
-REACH = ["passed_through_calls", "merged_calls", "parent_fresh", "parent_from_cache", "parent_from_disk", "ondisk_levels", "after_restart_served", "chains_len3plus"]
+REACH = ["calls_with_write_fault", "passed_through_calls", "merged_calls", "parent_fresh", "parent_from_cache", "parent_from_disk", "ondisk_levels", "after_restart_served", "chains_len3plus"]
 
 LEVELS = 5
 KEYS = ["a", "b", "c", "d", "e", "f"]
@@ -58,7 +58,12 @@ def gen_case(seed):
         if r < 0.12:
             ops.append(["pass", rng.randrange(depth), rng.randrange(2)])
         elif r < 0.7:
-            ops.append(["call", rng.randrange(depth), rng.randrange(2)])
+            op = ["call", rng.randrange(depth), rng.randrange(2)]
+            if rng.random() < 0.12:
+                # a reported I/O error at one file operation while this call's results are being stored (the runner logs
+                # it and hands the value back un-memoized): whatever is stored afterwards must still read back exactly
+                op.append({"fault_k": rng.randrange(1, 40), "errno": rng.choice(["ENOSPC", "EIO"])})
+            ops.append(op)
         elif r < 0.85:
             ops.append(["restart"])
         else:
@@ -144,7 +149,14 @@ def _segment(root, case, ops, first_index):
                 elif op[0] in ("call", "pass"):
                     fn = getattr(mod, ("p%d" if op[0] == "call" else "q%d") % op[1])
                     side.take()
+                    flt = op[3] if len(op) > 3 else None
+                    if flt:
+                        simfs.arm(world.store_roots(root, False))
+                        simfs.set_plan({flt["fault_k"]: {"variant": "error-before", "errno": flt["errno"]}})
                     r = fn(op[2])
+                    if flt:
+                        rec["fault_fired"] = len(simfs.S.fired)
+                        simfs.disarm()
                     tr = side.take()
                     rec["runs"] = [t[0] for t in tr if t[0] != "parent"]
                     rec["parents"] = [t[1:] for t in tr if t[0] == "parent"]
@@ -257,6 +269,8 @@ def execute(case):
                         prov = "from-cache"
                     bump("parent_" + prov.replace("-", "_"))
                 feats["parent_provenance"] = prov
+                if rec.get("fault_fired"):
+                    bump("calls_with_write_fault")
                 if key in stored and rec["runs"]:
                     viol.append(core.violation("stored-result-missing", feats, {"rec": rec, "note": "body ran again although the call was stored before"}))
                     break
@@ -279,13 +293,18 @@ def execute(case):
                 if chk["single"]:
                     viol.append(core.violation("key-not-loadable-on-its-own", feats, rec))
                     break
+                if rec.get("fault_fired"):
+                    # nothing is known about what this call (and the calls it made) managed to store
+                    stored = set(k2 for k2 in stored if k2[1] != op[2])
+                    continue
                 if not chk["memento"]:
                     viol.append(core.violation("result-not-stored", feats, rec))
                     break
                 stored.add(key)
                 this_life.add(key)
-                for lvl in range(op[1] + (1 if passed else 0)):      # every body calls the level below: ancestors are stored too
-                    stored.add((lvl, op[2]))
+                for name in rec["runs"]:      # every level whose body ran in this (fault-free) call has been stored now
+                    if name[:1] == "p" and name[1:].isdigit():
+                        stored.add((int(name[1:]), op[2]))
             if viol:
                 break
     finally:
